@@ -10,7 +10,9 @@ pub mod c03;
 pub mod c04;
 pub mod c05;
 pub mod c10;
+pub mod c11;
 pub mod c12;
+pub mod c13;
 pub mod c16;
 pub mod c17;
 pub mod c18;
@@ -40,7 +42,9 @@ pub fn lookup(id: &str) -> Option<Prop> {
         "C08" => Prop { isolate: false, level: "model_checking", run: rules::run_c08, replay: rules::replay_c08 },
         "C09" => Prop { isolate: false, level: "model_checking", run: rules::run_c09, replay: rules::replay_c09 },
         "C10" => Prop { isolate: false, level: "model_checking", run: c10::run, replay: c10::replay },
+        "C11" => Prop { isolate: false, level: "model_checking", run: c11::run, replay: c11::replay },
         "C12" => Prop { isolate: false, level: "model_checking", run: c12::run, replay: c12::replay },
+        "C13" => Prop { isolate: false, level: "fault_enumeration", run: c13::run, replay: c13::replay },
         "C16" => Prop { isolate: false, level: "model_checking", run: c16::run, replay: c16::replay },
         "C17" => Prop { isolate: false, level: "model_checking", run: c17::run, replay: c17::replay },
         "C18" => Prop { isolate: false, level: "model_checking", run: c18::run, replay: c18::replay },
